@@ -23,6 +23,7 @@ from .ops import (coerce, to_v, truthy, is_none, val_eq, tuple_get, rec_get, rec
 
 REC_DECLS: dict = {}
 REC_AXIOMS: dict = {}
+REC_BODIES: dict = {}
 SPEC_MEMO: dict = {}
 # class tables -------------------------------------------------------------------------------
 REF_BASE: dict = {}        # short class name -> short base-class name (for shared heap fields)
@@ -46,6 +47,27 @@ def has_field(cls: str, field: str) -> bool:
         return True
     except KeyError:
         return False
+
+
+def unfold_equations(term, depth=1):
+    """Definitional equations  f(args) == body[args]  for every application of a recursive spec inside term."""
+    out = []
+    seen = set()
+    stack = [term]
+    decls = {b[0].name(): b for b in REC_BODIES.values()}
+    while stack:
+        e = stack.pop()
+        if e.get_id() in seen:
+            continue
+        seen.add(e.get_id())
+        if z3.is_app(e):
+            d = decls.get(e.decl().name())
+            if d is not None and e.num_args() == len(d[1]):
+                out.append(e == z3.substitute(d[2], *[(fv, e.arg(i)) for i, fv in enumerate(d[1])]))
+            stack.extend(e.children())
+        elif z3.is_quantifier(e):
+            pass
+    return out
 
 
 def mentions(expr, consts) -> bool:
@@ -542,7 +564,9 @@ class Executor:
                 o = inspect.getattr_static(base.o, attr) if inspect.isclass(base.o) else getattr(base.o, attr)
             except AttributeError:
                 raise Unsupported(f"attribute {attr} of {base.o!r}")
-            if isinstance(o, (staticmethod, classmethod)):
+            if isinstance(o, classmethod):
+                return PyObj(("classbound", o.__func__, base.o))
+            if isinstance(o, staticmethod):
                 o = o.__func__
             return self.lift_py(o)
         if isinstance(base, K):
@@ -766,6 +790,8 @@ class Executor:
                 i = z3.Int(T.fresh_name("q"))
                 qvars.append(i)
                 guards.append(z3.And(lo <= i, i < hi))
+                if not mentions(lo, qvars[:-1]) and not mentions(hi, qvars[:-1]):
+                    ops.note_range(lo, hi)
                 self.bind_target(st2, gen.target, V(INT, i))
             else:
                 src = self.eval(st2, it)
@@ -847,6 +873,8 @@ class Executor:
         if isinstance(o, Contract):
             r = self.call_contract(st, o, args, kwargs, stmt_level, node)
             return r
+        if isinstance(o, tuple) and o and o[0] == "classbound":
+            return self.call_function(st, o[1], [PyObj(o[2])] + args, kwargs, stmt_level=stmt_level, node=node)
         if isinstance(o, tuple) and o and o[0] == "noop":
             return self.wrap(st, K(None), stmt_level)
         if isinstance(o, tuple) and o and o[0] == "superbound":
@@ -944,6 +972,8 @@ class Executor:
             return self.sorted(st, args[0], kwargs.get("key"))
         if o is str:
             a = args[0]
+            if isinstance(a, V) and isinstance(a.ty, TRef) and CLASS_OBJ.get(a.ty.cls) is not None and "__str__" in vars(CLASS_OBJ[a.ty.cls]):
+                return self.call_function(st, vars(CLASS_OBJ[a.ty.cls])["__str__"], [a], {}, expr_only=True)
             if isinstance(a, V) and is_str(a.ty):
                 return a
             if isinstance(a, K) and isinstance(a.v, str):
@@ -1050,6 +1080,12 @@ class Executor:
         if isinstance(t, TRef):
             hook = ISINSTANCE_HOOK.get(t.cls)
             if hook is None:
+                real = CLASS_OBJ.get(t.cls)
+                if real is not None:
+                    if any(issubclass(real, c) for c in classes):
+                        return z3.BoolVal(True)
+                    if not any(issubclass(c, real) for c in classes):
+                        return z3.BoolVal(False)    # unrelated class (e.g. str): never an instance
                 raise Unsupported(f"isinstance on {t}")
             return z3.Or(*[hook(self, st, v, c) for c in classes])
         pyt = {INT: int, BOOL: bool}.get(t)
@@ -1176,6 +1212,7 @@ class Executor:
                 else:
                     closed.append(z)
             REC_AXIOMS[sp.name] = closed
+            REC_BODIES[sp.name] = (f, formals, body.z)
             z3.RecAddDefinition(f, formals, body.z)
         f = self.rec_decls[sp.name]
         for z in REC_AXIOMS.get(sp.name, []):
@@ -1349,7 +1386,30 @@ def contract_ast(fn):
         return _contract_ast_cache[fn]
     lines, start = inspect.getsourcelines(fn)
     src = textwrap.dedent("".join(lines))
-    tree = ast.parse(src)
+    try:
+        tree = ast.parse(src)
+    except SyntaxError:
+        if fn.__name__ != "<lambda>":
+            raise
+        # a lambda in the middle of a multi-line call: cut the expression out of the text
+        tree = None
+        at = src.find("lambda")
+        while at >= 0 and tree is None:
+            text = src[at:]
+            for n in range(len(text), 6, -1):
+                try:
+                    cand = ast.parse(text[:n].strip(), mode="eval")
+                except SyntaxError:
+                    continue
+                if isinstance(cand.body, ast.Lambda):
+                    tree = ast.Module(body=[ast.Expr(value=cand.body)], type_ignores=[])
+                    for nd in ast.walk(tree):
+                        if hasattr(nd, "lineno"):
+                            nd.lineno = fn.__code__.co_firstlineno - start + 1
+                    break
+            at = src.find("lambda", at + 1)
+        if tree is None:
+            raise
     node = tree.body[0]
     if fn.__name__ != "<lambda>" and isinstance(node, ast.FunctionDef):
         params = [a.arg for a in node.args.args]
